@@ -62,6 +62,7 @@ type Run struct {
 	samples  []any
 	start    time.Time
 	knownN   map[string]int
+	halted   atomic.Bool
 	curIdx   atomic.Int64
 	curDesc  atomic.Value
 }
@@ -111,7 +112,7 @@ func (r *Run) Mine(caseIdx int64) bool {
 		}
 		return caseIdx == r.Replay
 	}
-	if r.viols.Load() >= MaxViolations {
+	if r.viols.Load() >= MaxViolations || r.halted.Load() {
 		return false
 	}
 	if int(caseIdx%int64(r.NShards)) == r.Shard {
@@ -122,7 +123,12 @@ func (r *Run) Mine(caseIdx int64) bool {
 }
 
 // Stopped is true once enough violations were collected.
-func (r *Run) Stopped() bool { return r.viols.Load() >= MaxViolations }
+func (r *Run) Stopped() bool { return r.viols.Load() >= MaxViolations || r.halted.Load() }
+
+// Halt ends this child's search after the current case: the process is
+// no longer in a state in which further cases can be judged (a leaked
+// goroutine keeps running).
+func (r *Run) Halt() { r.halted.Store(true) }
 
 func (r *Run) Eval()             { r.evals.Add(1); Progress.Add(1) }
 func (r *Run) EvalN(n int64)     { r.evals.Add(n); Progress.Add(1) }
